@@ -305,7 +305,9 @@ var waitReasons = []string{"running", "runnable", "syscall", "waiting", "chan re
 
 var pkgPool = []string{"main", "main", "main", "runtime", "sync", "net/http", "os", "github.com/foo/bar", "github.com/maruel/panicparse/v2/stack",
 	"gopkg.in/yaml.v2", "golang.org/x/sys/unix", "example.com/a.b/c.d", "github.com/user/repo/vendor/golang.org/x/net/http2", "internal/poll",
-	"héllo/wörld", "a/b c", "x.y", "foo.bar.baz", "a.b", "type:", "github.com/foo/c++", "example.com/a+b/c", "github.com/foo/bar/v3", "cmd/go/internal/work"}
+	"héllo/wörld", "a/b c", "x.y", "foo.bar.baz", "a.b", "type:", "github.com/foo/c++", "example.com/a+b/c", "github.com/foo/bar/v3", "cmd/go/internal/work",
+	// packages that merely end in, or start with, "main": only the import path "main" is the main package
+	"example.com/tool/internal/main", "x/main", "mainly", "cmd/main.v2"}
 
 var namePool = []string{"main", "foo", "Bar", "(*T).Method", "T.method", "main.func1", "main.func1.2", "init.0", "(*Server).Serve.func2", "glob..func1",
 	"F[...]", "(*List[...]).Push", "Ʒ", "ünexported", "Ünic", "_cfunc", "gopanic", "goexit", "(*conn).serve", "Do.func1.gowrap1", "x·y", "a-b",
